@@ -217,7 +217,7 @@ func (g *Gen) frameObligations(fc *FuncContract, exit *State, params map[string]
 	scratch := g.entry.clone()
 	allowAll := false
 	for mi, m := range fc.Modifies {
-		if id, ok := m.(*Ident); ok && id.Name == "heap" {
+		if id, ok := m.(*Ident); ok && (id.Name == "heap" || id.Name == "opaque_heap") {
 			allowAll = true
 			continue
 		}
